@@ -277,7 +277,43 @@ Definition vp_readable (vp : vprefs) : bool :=
   && (match vp_slot vp 15 with Some v => 1 <=? v | None => true end).
 
 (* ------------------------------------------------------------- attachments *)
-Definition atts := list (str * list N).
+(* an attachment: name tree key -> (file name = file spec UF/F, description = Desc, bytes);
+   Names.Process visits the entries in key order *)
+Definition att_val := (str * str * list N)%type.
+Definition atts := list (str * att_val).
+Definition a_fname (v : att_val) : str := fst (fst v).
+Definition a_desc (v : att_val) : str := snd (fst v).
+Definition a_data (v : att_val) : list N := snd v.
+
+(* model/attach.go SearchEmbeddedFilesNameTreeNodeByContent: the first entry, in key order,
+   whose file name or description equals s *)
+Fixpoint att_search (p : str) (m : atts) : option (str * att_val) :=
+  match m with
+  | [] => None
+  | (k, v) :: r => if seqb p (a_fname v) || seqb p (a_desc v) then Some (k, v) else att_search p r
+  end.
+
+(* ExtractAttachments / removeAttachment: the exact name tree key first, the content search
+   only when no key matches *)
+Definition att_find (p : str) (m : atts) : option (str * att_val) :=
+  match m_get p m with Some v => Some (p, v) | None => att_search p m end.
+
+(* ExtractAttachments(ids): names that resolve to nothing are skipped; [] = all, in key order *)
+Definition extract_many (ids : list str) (m : atts) : list (str * att_val) :=
+  match ids with
+  | [] => m
+  | _ => flat_map (fun id => match att_find id m with Some e => [e] | None => [] end) ids
+  end.
+
+(* RemoveAttachments(ids): one after the other; a name that resolves to nothing refuses the call *)
+Fixpoint remove_seq (ids : list str) (m : atts) : option atts :=
+  match ids with
+  | [] => Some m
+  | id :: r => match att_find id m with
+               | Some (k, _) => remove_seq r (m_del k m)
+               | None => None
+               end
+  end.
 
 (* nameTree.go insertUniqueIntoLeaf in rename mode: a present key gets "\x01" appended
    until it is free (the tree-level behaviour, and its defect, are C39's) *)
@@ -308,6 +344,10 @@ Definition empty_doc (ver : N) : doc := Doc ver None [] None None None [] None f
 (* a starting document with an Info dictionary (possibly with /Keywords) and catalog XMP *)
 Definition init_doc (ver : N) (hasinfo : bool) (kw : option str) (x : xmpst) : doc :=
   Doc ver (if hasinfo then kw else None) [] None None None [] x hasinfo.
+(* ... and with an EmbeddedFiles name tree (entries sorted by key by the harness) *)
+Definition init_doc_att (ver : N) (hasinfo : bool) (kw : option str) (x : xmpst) (a : atts) : doc :=
+  Doc ver (if hasinfo then kw else None) [] None None None
+      (fold_left (fun m e => m_set (fst e) (snd e) m) a []) x hasinfo.
 
 Definition set_kw d x := Doc (d_ver d) x (d_info d) (d_pl d) (d_pm d) (d_vp d) (d_att d) (d_xmp d) (d_hasinfo d).
 Definition set_info d x := Doc (d_ver d) (d_kw d) x (d_pl d) (d_pm d) (d_vp d) (d_att d) (d_xmp d) (d_hasinfo d).
@@ -352,15 +392,11 @@ Inductive op :=
 | LSet (v : N) | LReset
 | MSet (v : N) | MReset
 | VSet (vp : vprefs) | VReset
-| AAdd (id : str) (data : list N)
+| AAdd (id : str) (desc : str) (data : list N)   (* file "id,desc" *)
 | ARemove (ids : list str).           (* [] = remove all *)
 
 Definition fail (d : doc) : doc * bool := (d, false).
 Definition done (d : doc) : doc * bool := (persist d, true).
-
-Definition all_present (ids : list str) (m : atts) : bool :=
-  (* model/attach.go RemoveAttachments: ids are removed one after the other *)
-  fst (fold_left (fun (st : bool * atts) id => (fst st && m_mem id (snd st), m_del id (snd st))) ids (true, m)).
 
 Definition step (d : doc) (o : op) : doc * bool :=
   if negb (readable d) then fail d else
@@ -407,16 +443,16 @@ Definition step (d : doc) (o : op) : doc * bool :=
     if negb (vp_validate (d_ver d) vp) then fail d else
     done (set_vp d (Some (match d_vp d with None => vp | Some old => vp_merge old vp end)))
   | VReset => done (set_vp d None)
-  | AAdd id data =>     (* api.AddAttachments with one file, model AddAttachment *)
-    done (set_att d (m_set (uniq_id (S (List.length (d_att d))) id (d_att d)) data (d_att d)))
+  | AAdd id desc data =>   (* api.AddAttachments with one file "id,desc"; F = UF = the (renamed) key *)
+    let k := uniq_id (S (List.length (d_att d))) id (d_att d) in
+    done (set_att d (m_set k (k, desc, data) (d_att d)))
   | ARemove [] =>       (* RemoveAttachments: no name tree -> false; else drop the tree *)
     match d_att d with [] => fail d | _ => done (set_att d []) end
   | ARemove ids =>
     if negb (forallb (fun k => negb (blank_b k)) ids) then fail d else
-    match d_att d with [] => fail d | _ =>
-      if all_present ids (d_att d)
-      then done (set_att d (fold_left (fun m k => m_del k m) ids (d_att d)))
-      else fail d
+    match remove_seq ids (d_att d) with
+    | Some m => done (set_att d m)
+    | None => fail d
     end
   end.
 
@@ -449,8 +485,17 @@ Definition observe (d : doc) : option store :=
                 (match d_pm d with None => None | Some n => enum_for pm_names n end)
                 (d_vp d) (d_att d)).
 
+(* api.ExtractAttachmentsRaw(rs, "", []string{id}): the bytes it returns *)
 Definition extract (d : doc) (id : str) : option (list N) :=
-  if readable d then m_get id (d_att d) else None.
+  if readable d then match att_find id (d_att d) with Some (_, v) => Some (a_data v) | None => None end
+  else None.
+
+(* the names the harness asks for after every step: every key, file name and description
+   of the store and one absent name, without blanks, sorted *)
+Definition att_probes (m : atts) : list str :=
+  filter (fun p => negb (blank_b p))
+    (fold_left (fun acc p => set_ins p acc)
+       (map fst m ++ map (fun e => a_fname (snd e)) m ++ map (fun e => a_desc (snd e)) m ++ [[122; 122]]) []).
 
 (* ------------------------------------------------ the specification (M-KV) *)
 (* the abstract store is the same record; its operations never encode anything *)
@@ -473,11 +518,12 @@ Definition astep (s : store) (o : op) : store :=
                 then Store ver kw pr pl pm (Some (match vp with None => new | Some old => vp_merge old new end)) att
                 else s
   | VReset => Store ver kw pr pl pm None att
-  | AAdd id data => Store ver kw pr pl pm vp (m_set id data att)
+  | AAdd id desc data => Store ver kw pr pl pm vp (m_set id (id, desc, data) att)
   | ARemove [] => Store ver kw pr pl pm vp []
   | ARemove ids =>
-    if forallb (fun k => negb (blank_b k)) ids && all_present ids att
-    then Store ver kw pr pl pm vp (fold_left (fun m k => m_del k m) ids att) else s
+    if forallb (fun k => negb (blank_b k)) ids
+    then match remove_seq ids att with Some m => Store ver kw pr pl pm vp m | None => s end
+    else s
   end.
 
 Definition arun (s : store) (h : list op) : store := fold_left astep h s.
@@ -514,11 +560,11 @@ Fixpoint fresh_adds (h : list op) (s : store) : bool :=
   match h with
   | [] => true
   | o :: r =>
-    (match o with AAdd id _ => negb (m_mem id (s_att s)) | _ => true end)
+    (match o with AAdd id _ _ => negb (m_mem id (s_att s)) | _ => true end)
     && fresh_adds r (astep s o)
   end.
 
 (* ------------------------------------------------ wire helpers for the glue *)
 Definition run_from_empty (ver : N) (h : list op) : doc := run (empty_doc ver) h.
 Definition last_ok_from_empty (ver : N) (h : list op) : bool := last_ok (empty_doc ver) h.
-Definition init_store (d : doc) : store := Store (d_ver d) (kw_read d) [] None None None [].
+Definition init_store (d : doc) : store := Store (d_ver d) (kw_read d) [] None None None (d_att d).
